@@ -87,10 +87,7 @@ Hypothesis HT : 0 < T fb.
 
 Let FF : F1facts fb := in_f1_facts fb HF1.
 
-(** the reference window of a derived F1 factor and its (width 1) arguments *)
-Definition dwin (fd : ffactor) (w : fwindow) : dwindow :=
-  {| w_deps := win_deps w; w_width := win_width w; w_stride := win_stride w;
-     w_start := win_start w; w_table := map lv_accepts (ff_levels fd) |}.
+(** the (width 1) arguments of the reference window ([CodeSem.dwin]) of a derived factor of act_design *)
 
 Definition cargs (q : tseq) (deps : list nat) (t : nat) : list (list cell) :=
   map (fun d => [get_cell q d t]) deps.
@@ -101,21 +98,22 @@ Definition lev (q : tseq) (t d : nat) : nat :=
 
 (** * What [in_f1] gives for one factor *)
 Lemma f1_window_shape f fd w :
-  nth_error (fl_design fb) f = Some fd -> ff_window fd = Some w ->
+  nth_error (fl_design fb) f = Some fd -> ff_window fd = Some w -> isact fb f = true ->
   win_width w = 1 /\ win_stride w = 1 /\ win_start w = 0.
 Proof.
-  intros Efd Ew. pose proof (f1_factor fb FF f fd Efd) as H. unfold factor_f1 in H. rewrite Ew in H.
+  intros Efd Ew Ha. pose proof (f1_factor fb FF f fd Efd Ha) as H. unfold factor_f1 in H. rewrite Ew in H.
   rewrite !andb_true_iff in H. destruct H as [_ [[H1 H2] H3]].
   apply Nat.eqb_eq in H1, H2, H3. auto.
 Qed.
 
 Lemma f1_tables_facts f fd w :
-  nth_error (fl_design fb) f = Some fd -> ff_window fd = Some w ->
+  nth_error (fl_design fb) f = Some fd -> ff_window fd = Some w -> isact fb f = true ->
   Forall (fun dd => isact fb dd = true) (win_deps w) /\
   (forall lv entry, In lv (ff_levels fd) -> In entry (lv_accepts lv) -> entry_ok fb (win_deps w) entry = true).
 Proof.
-  intros Efd Ew. destruct (f1_tables fb FF f fd Efd) as [Htab _]. unfold tables_ok in Htab. rewrite Ew in Htab.
-  apply andb_true_iff in Htab. destruct Htab as [Hlt Hent]. rewrite forallb_forall in Hlt, Hent. split.
+  intros Efd Ew Ha. destruct (f1_tables fb FF f fd Efd) as [Htab _]. unfold tables_ok in Htab. rewrite Ew in Htab.
+  apply andb_true_iff in Htab. destruct Htab as [Hlt Hent]. rewrite Ha in Hent. cbn [negb orb] in Hent.
+  rewrite forallb_forall in Hlt, Hent. split.
   - apply Forall_forall. intros dd Hdd. now apply Hlt.
   - intros lv entry Hlv He. specialize (Hent lv Hlv). rewrite forallb_forall in Hent. now apply Hent.
 Qed.
@@ -143,11 +141,11 @@ Proof.
   change ((1 - 1 - 0) * 1) with 0. cbn [Nat.leb]. now rewrite Nat.sub_0_r.
 Qed.
 
-Lemma applies_f1 f fd t : nth_error (fl_design fb) f = Some fd -> applies (code_factor fb f fd) t = true.
+Lemma applies_f1 f fd t : nth_error (fl_design fb) f = Some fd -> isact fb f = true -> applies (code_factor fb f fd) t = true.
 Proof.
-  intros Efd. unfold applies. destruct (ff_window fd) as [w|] eqn:Ew.
+  intros Efd Ha. unfold applies. destruct (ff_window fd) as [w|] eqn:Ew.
   - rewrite (code_factor_derived f fd w Ew). cbn [w_start w_stride dwin].
-    destruct (f1_window_shape f fd w Efd Ew) as (_ & H2 & H3). rewrite H2, H3.
+    destruct (f1_window_shape f fd w Efd Ew Ha) as (_ & H2 & H3). rewrite H2, H3.
     rewrite Nat.mod_1_r. reflexivity.
   - now rewrite (code_factor_plain f fd Ew).
 Qed.
@@ -155,7 +153,7 @@ Qed.
 (** the shape part of [onehot]: complete rows, every cell a level *)
 Definition shape (q : tseq) : Prop :=
   length q = nf fb /\ (forall f, f < nf fb -> length (nth f q []) = T fb) /\
-  (forall t f, t < T fb -> f < nf fb -> exists l, l < nlevels fb f /\ get_cell q f t = Some l).
+  (forall t f, t < T fb -> isact fb f = true -> exists l, l < nlevels fb f /\ get_cell q f t = Some l).
 
 Lemma onehot_shape s q : onehot fb s q -> shape q.
 Proof. intros (A & B & C & _). repeat split; assumption. Qed.
@@ -163,32 +161,32 @@ Proof. intros (A & B & C & _). repeat split; assumption. Qed.
 (** [factor_ok] of an F1 factor on a one-hot sequence: only the acceptance of
     the chosen level of a derived factor remains *)
 Lemma factor_ok_shape q f fd :
-  shape q -> nth_error (fl_design fb) f = Some fd ->
+  shape q -> nth_error (fl_design fb) f = Some fd -> isact fb f = true ->
   (factor_ok (code_sem fb) q f (code_factor fb f fd) = true <->
    forall w, ff_window fd = Some w ->
    forall t l0, t < T fb -> get_cell q f t = Some l0 -> accepts (dwin fd w) l0 (cargs q (win_deps w) t) = true).
 Proof.
-  intros (Hq & Hr & Hc) Efd.
+  intros (Hq & Hr & Hc) Efd Ha.
   pose proof (design_lt f fd Efd) as Hf. pose proof (nlevels_design f fd Efd) as Hnl.
   unfold factor_ok. change (s_trials (code_sem fb)) with (T fb).
   rewrite (Hr f Hf), Nat.eqb_refl, andb_true_l, forallb_forall. split.
   - intros H w Ew t l0 Ht El0.
     specialize (H t (proj2 (in_seq _ _ _) (conj (Nat.le_0_l _) Ht))). rewrite El0 in H.
     rewrite (code_factor_derived f fd w Ew) in H. apply andb_true_iff in H. destruct H as [_ H].
-    destruct (f1_window_shape f fd w Efd Ew) as (H1 & _ & _).
+    destruct (f1_window_shape f fd w Efd Ew Ha) as (H1 & _ & _).
     now rewrite (window_args_f1 q f fd w t H1) in H.
-  - intros H t Ht. apply in_seq in Ht. destruct (Hc t f ltac:(lia) Hf) as (l0 & Hl0 & El0). rewrite El0.
-    rewrite (applies_f1 f fd t Efd). cbn [f_nlevels f_sustain code_factor].
+  - intros H t Ht. apply in_seq in Ht. destruct (Hc t f ltac:(lia) Ha) as (l0 & Hl0 & El0). rewrite El0.
+    rewrite (applies_f1 f fd t Efd Ha). cbn [f_nlevels f_sustain code_factor].
     rewrite (f1_sustain fb FF f), Nat.div_1_r, Nat.mul_1_r, El0. cbn [cell_eqb]. rewrite Nat.eqb_refl.
     replace (l0 <? length (ff_levels fd)) with true by (symmetry; apply Nat.ltb_lt; lia).
     cbn [andb]. destruct (ff_window fd) as [w|] eqn:Ew; [|now rewrite (code_factor_plain f fd Ew)].
-    destruct (f1_window_shape f fd w Efd Ew) as (H1 & _ & _).
+    destruct (f1_window_shape f fd w Efd Ew Ha) as (H1 & _ & _).
     rewrite (code_factor_derived f fd w Ew).
     rewrite (window_args_f1 q f fd w t H1). apply (H w eq_refl t l0); [lia|exact El0].
 Qed.
 
 Lemma factor_ok_f1 s q f fd :
-  onehot fb s q -> nth_error (fl_design fb) f = Some fd ->
+  onehot fb s q -> nth_error (fl_design fb) f = Some fd -> isact fb f = true ->
   (factor_ok (code_sem fb) q f (code_factor fb f fd) = true <->
    forall w, ff_window fd = Some w ->
    forall t l0, t < T fb -> get_cell q f t = Some l0 -> accepts (dwin fd w) l0 (cargs q (win_deps w) t) = true).
@@ -274,44 +272,44 @@ Proof.
 Qed.
 
 Lemma accepts_level_accepts_shape q f fd w t l :
-  shape q -> nth_error (fl_design fb) f = Some fd -> ff_window fd = Some w -> t < T fb ->
+  shape q -> nth_error (fl_design fb) f = Some fd -> ff_window fd = Some w -> isact fb f = true -> t < T fb ->
   accepts (dwin fd w) l (cargs q (win_deps w) t) = level_accepts fd l (map (lev q t) (win_deps w)).
 Proof.
-  intros (Hq & Hr & Hc) Efd Ew Ht. pose proof (design_lt f fd Efd) as Hf.
-  destruct (f1_tables_facts f fd w Efd Ew) as [Hlt Hent].
+  intros (Hq & Hr & Hc) Efd Ew Ha Ht. pose proof (design_lt f fd Efd) as Hf.
+  destruct (f1_tables_facts f fd w Efd Ew Ha) as [Hlt Hent].
   rewrite accepts_level. unfold level_accepts. destruct (nth_error (ff_levels fd) l) as [lv|] eqn:Elv; [|reflexivity].
   apply existsb_ext_in_ds. intros entry Hentry. apply args_entry_matches.
   - intros d Hd. pose proof (proj1 (Forall_forall _ _) Hlt d Hd) as Hdf. cbv beta in Hdf.
-    destruct (Hc t d Ht (f1_act_lt fb HF1 d Hdf)) as (x & _ & Ex). now exists x.
+    destruct (Hc t d Ht Hdf) as (x & _ & Ex). now exists x.
   - apply (Hent lv entry); [eapply nth_error_In; exact Elv|exact Hentry].
 Qed.
 
 Lemma accepts_level_accepts s q f fd w t l :
-  onehot fb s q -> nth_error (fl_design fb) f = Some fd -> ff_window fd = Some w -> t < T fb ->
+  onehot fb s q -> nth_error (fl_design fb) f = Some fd -> ff_window fd = Some w -> isact fb f = true -> t < T fb ->
   accepts (dwin fd w) l (cargs q (win_deps w) t) = level_accepts fd l (map (lev q t) (win_deps w)).
 Proof. intros Ho. apply accepts_level_accepts_shape. exact (onehot_shape s q Ho). Qed.
 
 (** no two levels accept the arguments of a trial *)
 Lemma accepts_unique_shape q f fd w t l l0 :
-  shape q -> nth_error (fl_design fb) f = Some fd -> ff_window fd = Some w -> t < T fb ->
+  shape q -> nth_error (fl_design fb) f = Some fd -> ff_window fd = Some w -> isact fb f = true -> t < T fb ->
   accepts (dwin fd w) l (cargs q (win_deps w) t) = true ->
   accepts (dwin fd w) l0 (cargs q (win_deps w) t) = true -> l = l0.
 Proof.
-  intros Ho Efd Ew Ht A1 A2.
-  rewrite (accepts_level_accepts_shape q f fd w t l Ho Efd Ew Ht) in A1.
-  rewrite (accepts_level_accepts_shape q f fd w t l0 Ho Efd Ew Ht) in A2.
+  intros Ho Efd Ew Ha Ht A1 A2.
+  rewrite (accepts_level_accepts_shape q f fd w t l Ho Efd Ew Ha Ht) in A1.
+  rewrite (accepts_level_accepts_shape q f fd w t l0 Ho Efd Ew Ha Ht) in A2.
   destruct (Nat.eq_dec l l0) as [E|N]; [exact E|exfalso].
   assert (B : forall k, level_accepts fd k (map (lev q t) (win_deps w)) = true -> k < length (ff_levels fd)).
   { intros k Hk. unfold level_accepts in Hk. apply nth_error_Some. destruct (nth_error (ff_levels fd) k); [discriminate|discriminate Hk]. }
   pose proof (B l A1) as L1. pose proof (B l0 A2) as L2.
-  destruct (f1_tables fb FF f fd Efd) as [_ Hun]. unfold tables_unambiguous in Hun. rewrite Ew in Hun.
+  destruct (f1_tables fb FF f fd Efd) as [_ Hun]. unfold tables_unambiguous in Hun. rewrite Ha, Ew in Hun. cbn [negb orb] in Hun.
   rewrite forallb_forall in Hun. specialize (Hun (map (lev q t) (win_deps w))).
   destruct Ho as (Hq & Hr & Hc). pose proof (design_lt f fd Efd) as Hf.
-  destruct (f1_tables_facts f fd w Efd Ew) as [Hlt _].
+  destruct (f1_tables_facts f fd w Efd Ew Ha) as [Hlt _].
   assert (Hin : In (map (lev q t) (win_deps w)) (product (map (fun d => seq 0 (nlevels fb d)) (win_deps w)))).
   { apply (in_product_map_ds (lev q t) (nlevels fb)). intros d Hd.
     pose proof (proj1 (Forall_forall _ _) Hlt d Hd) as Hdf. cbv beta in Hdf.
-    destruct (Hc t d Ht (f1_act_lt fb HF1 d Hdf)) as (x & Hx & Ex). unfold lev. now rewrite Ex. }
+    destruct (Hc t d Ht Hdf) as (x & Hx & Ex). unfold lev. now rewrite Ex. }
   specialize (Hun Hin). apply Nat.leb_le in Hun.
   pose proof (filter_two_ds (fun k => level_accepts fd k (map (lev q t) (win_deps w))) (seq 0 (length (ff_levels fd))) l l0
                 (seq_NoDup _ _) (proj2 (in_seq _ _ _) (conj (Nat.le_0_l _) L1))
@@ -320,7 +318,7 @@ Proof.
 Qed.
 
 Lemma accepts_unique s q f fd w t l l0 :
-  onehot fb s q -> nth_error (fl_design fb) f = Some fd -> ff_window fd = Some w -> t < T fb ->
+  onehot fb s q -> nth_error (fl_design fb) f = Some fd -> ff_window fd = Some w -> isact fb f = true -> t < T fb ->
   accepts (dwin fd w) l (cargs q (win_deps w) t) = true ->
   accepts (dwin fd w) l0 (cargs q (win_deps w) t) = true -> l = l0.
 Proof. intros Ho. apply accepts_unique_shape. exact (onehot_shape s q Ho). Qed.
@@ -350,6 +348,50 @@ Proof.
   exists lv. split; [reflexivity|]. rewrite <- Hdeps'. exact Hc.
 Qed.
 
+(** * Implied factors: [factor_ok] of a derived factor with sustain 1, unfolded *)
+Lemma factor_ok_impl q f fd w :
+  nth_error (fl_design fb) f = Some fd -> ff_window fd = Some w -> length (nth f q []) = T fb ->
+  (factor_ok (code_sem fb) q f (code_factor fb f fd) = true <->
+   forall t, t < T fb ->
+     match get_cell q f t with
+     | Some l => applies (code_factor fb f fd) t = true /\ l < nlevels fb f /\
+                 accepts (dwin fd w) l (window_args q (code_factor fb f fd) (dwin fd w) t) = true
+     | None => applies (code_factor fb f fd) t = false
+     end).
+Proof.
+  intros Efd Ew Hr. pose proof (nlevels_design f fd Efd) as Hnl.
+  unfold factor_ok. change (s_trials (code_sem fb)) with (T fb).
+  rewrite Hr, Nat.eqb_refl, andb_true_l, forallb_forall.
+  assert (K : forall t, (t / f_sustain (code_factor fb f fd)) * f_sustain (code_factor fb f fd) = t).
+  { intros t. cbn [f_sustain code_factor]. rewrite (f1_sustain fb FF f), Nat.div_1_r. apply Nat.mul_1_r. }
+  split.
+  - intros H t Ht. specialize (H t (proj2 (in_seq _ _ _) (conj (Nat.le_0_l _) Ht))).
+    destruct (get_cell q f t) as [l|] eqn:El.
+    + rewrite (code_factor_derived f fd w Ew) in H. rewrite !andb_true_iff in H.
+      destruct H as [[[A B] _] D]. apply Nat.ltb_lt in B. cbn [f_nlevels code_factor] in B.
+      split; [exact A|]. split; [lia|exact D].
+    + now apply negb_true_iff in H.
+  - intros H t Ht. apply in_seq in Ht. specialize (H t ltac:(lia)).
+    destruct (get_cell q f t) as [l|] eqn:El.
+    + destruct H as (A & B & D). rewrite (code_factor_derived f fd w Ew), A, D, K, El.
+      cbn [cell_eqb f_nlevels code_factor]. rewrite Nat.eqb_refl.
+      replace (l <? length (ff_levels fd)) with true by (symmetry; apply Nat.ltb_lt; lia). reflexivity.
+    + now apply negb_true_iff.
+Qed.
+
+(** on a one-hot grid the windows over the sequence and over the decoded act rows coincide *)
+Lemma onehot_window_args s q f fd w t :
+  onehot fb s q -> ff_window fd = Some w -> win_width w - 1 <= win_start w ->
+  Forall (fun d => isact fb d = true) (win_deps w) -> t < T fb ->
+  applies (code_factor fb f fd) t = true ->
+  window_args q (code_factor fb f fd) (dwin fd w) t = window_args (dec_act fb s) (code_factor fb f fd) (dwin fd w) t.
+Proof.
+  intros Ho Ew W3 Hd Ht Hap. apply (impl_window_ext fb HF1 HT q (dec_act fb s) f fd w t W3 Hap Ew).
+  intros d t' Hin Ht'. pose proof (proj1 (Forall_forall _ _) Hd d Hin) as Hda. cbv beta in Hda.
+  rewrite (dec_act_cell fb s t' d ltac:(lia) (f1_act_lt fb HF1 d Hda)).
+  apply (onehot_cell_act fb s q t' d Ho ltac:(lia) Hda).
+Qed.
+
 (** * The theorem *)
 Theorem factors_sem s q :
   onehot fb s q ->
@@ -361,38 +403,43 @@ Proof.
     with (map (fun p => code_factor fb (fst p) (snd p)) (combine (seq 0 (length (fl_design fb))) (fl_design fb))).
   rewrite (forallb_index_map_ds (code_factor fb) (factor_ok (code_sem fb) q) (fl_design fb)).
   split.
-  - intros H f fd Efd. apply (factor_ok_f1 s q f fd Ho Efd). intros w Ew t l0 Ht El0.
-    pose proof (design_lt f fd Efd) as Hf. pose proof (nlevels_design f fd Efd) as Hnl.
-    destruct (Hc t f Ht Hf) as (l1 & Hl1 & El1). rewrite El0 in El1. inversion El1. subst l1.
-    destruct (f1_tables_facts f fd w Efd Ew) as [Hlt Hent].
+  - intros H f fd Efd. pose proof (design_lt f fd Efd) as Hf. pose proof (nlevels_design f fd Efd) as Hnl.
     destruct (isact fb f) eqn:Hact.
-    + destruct (deriv_exists f fd w l0 Efd Ew Hact ltac:(lia)) as (lv & Elv & Hin).
+    + apply (factor_ok_f1 s q f fd Ho Efd Hact). intros w Ew t l0 Ht El0.
+      destruct (Hc t f Ht Hact) as (l1 & Hl1 & El1). rewrite El0 in El1. inversion El1. subst l1.
+      destruct (f1_tables_facts f fd w Efd Ew Hact) as [Hlt Hent].
+      destruct (deriv_exists f fd w l0 Efd Ew Hact ltac:(lia)) as (lv & Elv & Hin).
       specialize (H _ _ _ Hin).
       assert (He : forall entry, In entry (lv_accepts lv) -> entry_ok fb (win_deps w) entry = true).
       { intros entry Hentry. apply (Hent lv entry); [eapply nth_error_In; exact Elv|exact Hentry]. }
       pose proof (proj1 (pderiv_char s q f l0 (win_deps w) (lv_accepts lv) Ho Hact Hl1 Hlt He) H) as H'.
       rewrite accepts_level, Elv, <- (H' t Ht), El0. unfold is_level. cbn [cell_eqb]. apply Nat.eqb_refl.
-    + rewrite (accepts_level_accepts s q f fd w t l0 Ho Efd Ew Ht).
-      pose proof (Himp t f Ht Hf Hact) as Hcell. rewrite El0 in Hcell. unfold cell_impl, factor_at in Hcell.
-      rewrite Efd, Ew in Hcell. symmetry in Hcell.
-      destruct (find_in_range fb HF1 HT _ _ _ Hcell) as [_ Hacc].
-      replace (map (lev q t) (win_deps w)) with (impl_args fb s t w); [exact Hacc|].
-      unfold impl_args. apply map_ext_in. intros d Hd.
-      pose proof (proj1 (Forall_forall _ _) Hlt d Hd) as Hda. cbv beta in Hda.
-      unfold lev. rewrite (onehot_cell_act fb HF1 s q t d Ho Ht Hda). reflexivity.
+    + destruct (implied_facts fb HF1 HT f Hf Hact) as (fd' & w & Efd' & Ew & Hdeps & W1 & W2 & W3 & Htot).
+      assert (fd' = fd) by congruence. subst fd'.
+      apply (factor_ok_impl q f fd w Efd Ew (Hr f Hf)). intros t Ht.
+      rewrite (Himp t f Ht Hf Hact). unfold cell_impl, factor_at. rewrite Efd, Ew.
+      destruct (applies (code_factor fb f fd) t) eqn:Hap; [|reflexivity].
+      rewrite <- (onehot_window_args s q f fd w t Ho Ew W3 Hdeps Ht Hap).
+      destruct (find (fun l => accepts (dwin fd w) l (window_args q (code_factor fb f fd) (dwin fd w) t)) (seq 0 (nlevels fb f)))
+        as [l|] eqn:El.
+      * destruct (find_in_range fb HF1 HT _ _ _ El) as [A B]. now split.
+      * exfalso. pose proof (pcons_cell_impl fb HF1 HT s t f (onehot_pcons fb s q Ho) Ht Hf Hact) as P.
+        unfold appl, cell_impl, factor_at in P. rewrite Efd, Ew, Hap in P.
+        rewrite <- (onehot_window_args s q f fd w t Ho Ew W3 Hdeps Ht Hap), El in P.
+        destruct P as (l & _ & Q). discriminate.
   - intros H d deps f Hin.
     destruct (deriv_shape fb HF1 HT d deps f Hin) as (fd & w & l & lv & Efd & Ew & Elv & Hf & Hl & -> & -> & Hlt & Hent).
     apply (pderiv_char s q f l (win_deps w) (lv_accepts lv) Ho Hf Hl).
     + exact Hlt.
     + intros entry Hentry. exact (proj1 (Forall_forall _ _) Hent entry Hentry).
-    + intros t Ht. destruct (Hc t f Ht (f1_act_lt fb HF1 f Hf)) as (l0 & Hl0 & El0). rewrite El0.
-      pose proof (proj1 (factor_ok_f1 s q f fd Ho Efd) (H f fd Efd) w Ew t l0 Ht El0) as Hacc.
+    + intros t Ht. destruct (Hc t f Ht Hf) as (l0 & Hl0 & El0). rewrite El0.
+      pose proof (proj1 (factor_ok_f1 s q f fd Ho Efd Hf) (H f fd Efd) w Ew t l0 Ht El0) as Hacc.
       unfold is_level. cbn [cell_eqb]. destruct (l0 =? l) eqn:E.
       * apply Nat.eqb_eq in E. subst l0. rewrite accepts_level, Elv in Hacc. now symmetry.
       * symmetry. apply not_true_is_false. intros Hex.
         assert (Hacc' : accepts (dwin fd w) l (cargs q (win_deps w) t) = true)
           by (rewrite accepts_level, Elv; exact Hex).
-        pose proof (accepts_unique s q f fd w t l l0 Ho Efd Ew Ht Hacc' Hacc) as El. subst l0.
+        pose proof (accepts_unique s q f fd w t l l0 Ho Efd Ew Hf Ht Hacc' Hacc) as El. subst l0.
         rewrite Nat.eqb_refl in E. discriminate.
 Qed.
 
